@@ -33,13 +33,14 @@ def make_effect(g, ev):
             elif k == 'HANDLER':
                 kills.update(["P", "Fstr"])
         if n.term["k"] == "switch":
-            ps = ev.poll_switch(n)
-            if ps is not None and ps[0] is not None and lab == ('case', 0):
-                pe = ps[0]
+            pss = ev.poll_switches(n) if lab == ('case', 0) else []
+            for (pe, _) in pss:
+                if pe is None:
+                    continue
                 # Ready edge of a transport poll
                 if pe[0] == 'READ':
                     kills.add("P")
-                elif pe[0] == 'WRITE' and pe[1] == 'await_all' and pe[2] is not None:
+                elif pe[0] == 'WRITE' and pe[1] == 'await_all' and pe[2] is not None and len(pss) == 1:
                     c = E.subject_class(pe[2])
                     if c == 'req_out':
                         gens.add("Freq")
@@ -65,9 +66,9 @@ def check_entry(rep, facts, entry, init, label):
     consumed = set()
     for n in g.all_nodes():
         if n.term["k"] == "switch":
-            ps = ev.poll_switch(n)
-            if ps is not None and ps[0] is not None and ps[0][0] == 'READ':
-                consumed.add((n.frame.id, ps[1].bb))
+            for (pe, cn) in ev.poll_switches(n):
+                if pe is not None and pe[0] == 'READ':
+                    consumed.add((cn.frame.id, cn.bb))
     for n in g.all_nodes():
         e = ev.at(n)
         if e is not None and e[0] == 'READ' and (n.frame.id, n.bb) not in consumed:
